@@ -6,6 +6,8 @@ from ..core import AnalysisError, u, walk_local, enclosing_stmt
 from ..lib import (construct, std_facts, def_of, facts_at, calls_of_node,
                    returns_of, in_subtree, kwarg)
 
+from .common import allowed_stores, instance_state
+
 SKIP = 'config._should_skip'
 RESOLVER = 'config.ParseContext.get_configurable'
 
@@ -14,6 +16,9 @@ def run(ctx):
   prog = ctx.prog
   ss = ctx.func(SKIP)
   con = construct(ss)
+  allowed_stores(ctx, 'C15.known-first', {SKIP: {'_REGISTRY'}, 'config._validate_skip_unknown': set()},
+                 '"known" must be decided against the registry as it is now; a remembered "unknown" verdict drops bindings of configurables registered later')
+  instance_state(ctx, 'C15.forward', 'config.ParserDelegate', {'_skip_unknown'}, 'the delegate only carries the option')
   g, facts = std_facts(prog, ss)
   rets = [n for n in g.live_nodes() if n.kind == 'return']
   ctx.expect_at_least('returns of _should_skip', len(rets), 1)
